@@ -691,11 +691,11 @@ pub assume_specification[ String::from_utf8 ](v: Vec<u8>) -> (r: Result<String, 
         r is Ok <==> vstd::utf8::valid_utf8(v@),
         r is Ok ==> vstd::utf8::encode_utf8(r->Ok_0@) == v@;
 
-// UTF-8 encoding distributes over concatenation (used for chunked text strings)
-#[verifier::external_body]
+// UTF-8 encoding distributes over concatenation (used for chunked text strings): vstd lemma, PROVED there
 pub proof fn axiom_encode_utf8_concat(a: Seq<char>, b: Seq<char>)
     ensures vstd::utf8::encode_utf8(a + b) == vstd::utf8::encode_utf8(a) + vstd::utf8::encode_utf8(b),
 {
+    vstd::utf8::encode_utf8_concat(a, b);
 }
 // ---- TRUSTED END -----------------------------------------------------------------------
 
